@@ -329,35 +329,61 @@ def s3(run: Run, prog: Program):
                         f"keeps the *old* weights in the file")
     # undirected bookkeeping
     st_ = net.props["adjacency"]["set"]
-    halves = [n for n in ast.walk(st_.node) if isinstance(n, ast.AugAssign)
-              and isinstance(n.op, ast.FloorDiv) and "n_links" in ast.unparse(n.target)]
+    def _halves_links(n):
+        # self.n_links //= 2   |   self.n_links = <count> // 2
+        if isinstance(n, ast.AugAssign) and isinstance(n.op, ast.FloorDiv) and \
+                "n_links" in ast.unparse(n.target) and ast.unparse(n.value) == "2":
+            return True
+        return isinstance(n, ast.Assign) and "n_links" in ast.unparse(n.targets[0]) and \
+            isinstance(n.value, ast.BinOp) and isinstance(n.value.op, ast.FloorDiv) and \
+            ast.unparse(n.value.right) == "2"
+    sn_ = st_.params[0]
     ok = False
-    for h in halves:
-        for i in ast.walk(st_.node):
-            if isinstance(i, ast.If) and h in i.body and \
-                    ast.unparse(i.test).replace(" ", "") == "notself.directed":
+    for i in ast.walk(st_.node):
+        if isinstance(i, ast.If):
+            if negated_flag(i.test, (f"{sn_}.directed",)) and any(_halves_links(h) for h in i.body):
+                ok = True
+            if ast.unparse(i.test) == f"{sn_}.directed" and any(_halves_links(h)
+                                                                 for h in i.orelse):
                 ok = True
     run.oblige("S3", "adjacency.setter:halve-links", ok)
     if not ok:
         run.add("S3", "Network.adjacency.setter/halve", st_.where,
                 "the link count must be halved exactly when the network is undirected")
-    for fn, flags in ((net.methods["set_edge_list"], ("self.directed",)),
-                      (net.methods["FromIGraph"], ("directed",))):
-        ok = False
-        # locals (or parameters) that carry the directedness
-        flags = set(flags) | {p_ for p_ in fn.params if p_ == "directed"}
-        for a_ in ast.walk(fn.node):
+    def _symmetrises_when_undirected(fnode, params, flags0):
+        flags = set(flags0) | {p_ for p_ in params if p_ == "directed"}
+        for a_ in ast.walk(fnode):
             if isinstance(a_, ast.Assign) and isinstance(a_.targets[0], ast.Name) and any(
                     (isinstance(x, ast.Attribute) and x.attr in ("directed", "is_directed"))
                     for x in ast.walk(a_.value)):
                 flags.add(a_.targets[0].id)
-        for i in ast.walk(fn.node):
+        for i in ast.walk(fnode):
             if isinstance(i, ast.If) and negated_flag(i.test, flags) \
-                    and any(mirrors_edge_list(s) for s in i.body):
-                ok = True
+                    and any(mirrors_edge_list(s_) for s_ in i.body):
+                return True
             if isinstance(i, ast.If) and ast.unparse(i.test) in flags \
-                    and any(mirrors_edge_list(s) for s in i.orelse):
-                ok = True
+                    and any(mirrors_edge_list(s_) for s_ in i.orelse):
+                return True
+        return False
+
+    for fn, flags in ((net.methods["set_edge_list"], ("self.directed",)),
+                      (net.methods["FromIGraph"], ("directed",))):
+        ok = _symmetrises_when_undirected(fn.node, fn.params, flags)
+        if not ok:
+            # the block may live in a private helper of Network that fn calls
+            for c in ast.walk(fn.node):
+                if isinstance(c, ast.Call) and isinstance(c.func, ast.Attribute) and \
+                        isinstance(c.func.value, ast.Name) and \
+                        c.func.value.id in (fn.params[0] if fn.params else "self",
+                                            "self", "cls", "Network"):
+                    h = prog.lookup(net, c.func.attr)
+                    if h is not None and h is not fn and \
+                            _symmetrises_when_undirected(h.node, h.params, ()):
+                        # the helper must be told the directedness of this network
+                        passed = [ast.unparse(a_) for a_ in c.args] + \
+                            [ast.unparse(k.value) for k in c.keywords]
+                        if any(p_.endswith("directed") or p_ in flags for p_ in passed):
+                            ok = True
         run.oblige("S3", f"{fn.qualname}:symmetrise", ok)
         if not ok:
             run.add("S3", f"{fn.qualname}/symmetrise", fn.where,
@@ -474,11 +500,12 @@ def s5(run: Run, prog: Program):
           and ast.unparse(s.targets[0]) == "self.graph"]
     if len(nl) != 1 or len(gr) != 1:
         raise AnalysisError(f"{st_.where}: n_links / graph assignment not found")
-    a = _dotted_names(nl[0].value)
+    from .idioms import inline_locals
+    a = _dotted_names(inline_locals(st_.node, nl[0].value))
     b = set()
     for k in gr[0].value.keywords if isinstance(gr[0].value, ast.Call) else []:
         if k.arg == "edges":
-            b = _dotted_names(k.value)
+            b = _dotted_names(inline_locals(st_.node, k.value))
     common = (a & b) - {"list", "len", "np", "self"}
     ok = bool(common)
     run.oblige("S5", "adjacency.setter:same-edge-enumeration", ok, sample={
@@ -493,8 +520,11 @@ def s5(run: Run, prog: Program):
                 f"graph")
     ld = [s for s in st_.node.body if isinstance(s, ast.Assign)
           and ast.unparse(s.targets[0]) == "self.link_density"]
-    ok = len(ld) == 1 and "self.n_links" in ast.unparse(ld[0].value) and \
-        st_.node.body.index(ld[0]) > st_.node.body.index(nl[0])
+    cnt_src = ast.unparse(inline_locals(st_.node, nl[0].value))
+    ok = len(ld) == 1 and (
+        ("self.n_links" in ast.unparse(ld[0].value) and
+         st_.node.body.index(ld[0]) > st_.node.body.index(nl[0])) or
+        cnt_src in ast.unparse(inline_locals(st_.node, ld[0].value)))
     run.oblige("S5", "adjacency.setter:density-from-count", ok)
     if not ok:
         run.add("S5", "Network.adjacency.setter/density", st_.where,
